@@ -1,5 +1,5 @@
 import BpProofs.SrcTieMetaInit
-import BpProofs.SrcTieObj
+import BpProofs.SrcTieMsg
 import BpProofs.Props.C06
 /-
   C06, tied to the SOURCE, the foundation under every other tie: the class metadata tables, construction and the
@@ -9,10 +9,12 @@ import BpProofs.Props.C06
   Python AST of the working tree on every run (harness/extract_srcmeta.py → BpProofs/Gen/SrcMeta.lean, namespace
   `Bp.SrcMeta`) and proved EQUAL to what the model — and the preludes of all the other source ties — use:
 
-    * the tables: `field_name_by_number.get` = `findField` (LAST declaration of a number wins),
-      `oneof_group_by_field.get` = `Py.oneofGroupByField`, `oneof_field_by_group[g]` = `Py.oneofFieldByGroup`
-      (declaration order), `meta_by_field_name` = the fields in declaration order (`Py.metaByFieldName`,
-      `Py.fieldNames`), `sorted_field_names` = every name once (`Py.sortedFieldNames`);
+    * the tables: `field_name_by_number.get` = `findField` (LAST declaration of a number wins; what
+      PyPreludeLoad.lean assumes as `Py.fieldNameByNumber`), `meta_by_field_name` = the fields in declaration order
+      (`Py.metaByFieldName`), `default_gen[name] is list` = `FieldD.repeated` (`Py.defaultGenIsList`),
+      `oneof_group_by_field.get` = the group of the field, `oneof_field_by_group[g]` = the members of `g` in
+      declaration order, `sorted_field_names` = every name once (the same statements with the names PyPreludeObj.lean
+      assumes them under are in Props/C07SrcMeta.lean: the two preludes cannot be imported together);
     * `Cls(**kw)` = the model's `construct`, `Cls()` = `fresh`;
     * `_get_field_default` = the model's `defaultOf` (`Py.getFieldDefault`), for every field kind.
 
@@ -22,15 +24,10 @@ import BpProofs.Props.C06
 -/
 set_option linter.unusedSimpArgs false
 namespace Bp.C06
-open Bp Bp.PyEnum Bp.PyMeta Bp.SrcTieMeta
+open Bp Bp.PyMeta Bp.SrcTieMeta
 open Bp.Py (Res ofR)
 
 /-! ### the metadata tables -/
-
-/-- the tie file's `membersFrom` is PyPreludeObj's (the two files cannot import each other's prelude) -/
-theorem membersFrom_eq (g : Nat) : ∀ (fs : List FieldD) (j : Nat), SrcTieMeta.membersFrom g fs j = Py.membersFrom g fs j
-  | [], _ => rfl
-  | f :: fs, j => by simp [SrcTieMeta.membersFrom, Py.membersFrom, membersFrom_eq g fs (j + 1)]
 
 /-- **`ProtoClassMetadata(cls)` as written builds the tables every other tie assumes**: it never raises, and for
     EVERY list of field descriptors (no well-formedness needed)
@@ -47,23 +44,20 @@ theorem src_metadata_tables (fs : List FieldD) :
     ∃ M, SrcMeta.ProtoClassMetadata.init fs = .ok M
       ∧ M.meta_by_field_name = dataclassFields fs
       ∧ (∀ name, PyEnum.dictGet M.meta_by_field_name name = fs[name]?)
-      ∧ (∀ name, PyEnum.dictGet M.oneof_group_by_field name = Py.oneofGroupByField fs name)
+      ∧ (∀ name, PyEnum.dictGet M.oneof_group_by_field name = (fs[name]?).bind fun f => f.group)
       ∧ (∀ n, PyEnum.dictGet M.field_name_by_number n = findField fs n)
       ∧ (∀ g, PyEnum.dictGet M.oneof_field_by_group g =
-            match Py.oneofFieldByGroup fs g with
+            match membersFrom g fs 0 with
             | [] => none
             | m :: ms => some (m :: ms))
       ∧ (∀ name, PyEnum.dictGet M.default_gen name = (fs[name]?).map genOf)
-      ∧ (numsDistinctB fs = true → M.sorted_field_names.Perm (Py.sortedFieldNames fs)) :=
+      ∧ (numsDistinctB fs = true → M.sorted_field_names.Perm (List.range fs.length)) :=
   ⟨tables fs, init_eq fs, rfl, tables_meta_by_field_name fs, tables_group_by_field fs, tables_name_by_number fs,
-    (fun g => by
-      have := tables_field_by_group fs g
-      rw [membersFrom_eq] at this
-      exact this), tables_default_gen fs, tables_sorted_perm fs⟩
+    tables_field_by_group fs, tables_default_gen fs, tables_sorted_perm fs⟩
 
-/-- the names iterated by `for name in meta_by_field_name` are `Py.fieldNames`: declaration order -/
+/-- the names iterated by `for name in meta_by_field_name`: every field once, in declaration order -/
 theorem src_field_names_in_declaration_order (fs : List FieldD) :
-    ∃ M, SrcMeta.ProtoClassMetadata.init fs = .ok M ∧ M.meta_by_field_name.map (·.1) = Py.fieldNames fs := by
+    ∃ M, SrcMeta.ProtoClassMetadata.init fs = .ok M ∧ M.meta_by_field_name.map (·.1) = List.range fs.length := by
   refine ⟨tables fs, init_eq fs, ?_⟩
   show (enumFrom 0 fs).map (·.1) = List.range fs.length
   rw [enumFrom_map_fst, List.range_eq_range']
@@ -165,13 +159,16 @@ theorem src_fresh (S : Schema) (c : Nat) : constructVal S c [] = .ok (fresh S c)
 theorem src_field_default_gen (fs : List FieldD) (k : Nat) (f : FieldD) (hf : fs[k]? = some f) :
     SrcMeta.get_field_default_gen fs (k, f) = .ok (genOf f) := gen_of_hint fs k f hf
 
-/-- **`_get_field_default` as written is the model's default** `defaultOf` — what PyPreludeObj.lean assumes as
-    `Py.getFieldDefault` —, with `Cls()` of a message class the construction as written.  Guard: the field is not
+/-- **`_get_field_default` as written is the model's default** `defaultOf` — what PyPreludeLoad.lean and PyPreludeObj.lean
+    assume as `Py.getFieldDefault` —, with `Cls()` of a message class the construction as written.  Guard: the field is not
     a map that is also marked repeated (`mapNotRepeated`). -/
 theorem src_field_default (S : Schema) (fs : List FieldD) (self : Inst) (k : Nat)
     (hg : ∀ f, fs[k]? = some f → mapNotRepeated f = true) :
-    SrcMeta.get_field_default (fun c => constructVal S c []) fs self k = Py.getFieldDefault S fs k :=
-  get_field_default_eq S _ (constructVal_nil S) fs self k hg
+    SrcMeta.get_field_default (fun c => constructVal S c []) fs self k
+      = Py.getFieldDefault S { fields := fs } (some k) := by
+  rw [get_field_default_eq S _ (constructVal_nil S) fs self k hg]
+  unfold Py.getFieldDefault Py.metaByFieldName
+  cases h : fs[k]? <;> simp [h, Py.Res.bind]
 
 /-- … spelled out per field kind: scalar kinds, string / bytes, enum → member 0, message → fresh instance, wrapper /
     optional → None, repeated → [], map → {}, Timestamp → DATETIME_ZERO, Duration → timedelta(0) -/
@@ -189,7 +186,7 @@ theorem src_field_default_by_kind (S : Schema) (fs : List FieldD) (self : Inst) 
           ∧ (f.ty = .int32 → v = .int 0) ∧ (f.ty = .sint64 → v = .int 0) ∧ (f.ty = .fixed32 → v = .int 0)) := by
   refine ⟨defaultOf S f, ?_, rfl, ?_⟩
   · rw [src_field_default S fs self k (fun f' h' => by rw [hf] at h'; injection h' with h'; subst h'; exact hg)]
-    simp [Py.getFieldDefault, hf]
+    simp [Py.getFieldDefault, Py.metaByFieldName, hf]
   · have hmr : f.ty = .map → f.repeated = false := by
       intro h; simpa [mapNotRepeated, h] using hg
     unfold defaultOf FieldD.defKind
@@ -214,28 +211,68 @@ theorem src_field_default_repeated_map_witness :
 /-! ### the C06 sentence "a freshly constructed message reads every field as its proto3 default and encodes to
     zero bytes", of the source as written -/
 
-/-- **a freshly constructed message reads every (non-oneof) field as its proto3 default**: `Cls()` as written,
-    then `getattr` as written (Gen/SrcObj.lean) returns None for a proto3-optional field and otherwise the value
-    `_get_field_default` as written computes — `defaultOf` — which it stores in the slot -/
+/-- **a freshly constructed message reads every (non-oneof) field as its proto3 default**: on the instance `Cls()`
+    as written leaves, an attribute read (the model's `getAttr`; `Message.__getattribute__` as written is tied to it
+    in Props/C07Src.lean, and the composition is `C07.src_fresh_getattr_default` of Props/C07SrcMeta.lean) returns None
+    for a proto3-optional field and otherwise the value `_get_field_default` AS WRITTEN computes — `defaultOf` -/
 theorem src_fresh_reads_default (S : Schema) (c : Nat) (i : Nat) (f : FieldD)
     (hf : (fieldsOf S c)[i]? = some f) (hg : f.group = Option.none) (hmr : mapNotRepeated f = true) :
     ∃ m cst, constructVal S c [] = .ok m ∧ stateOf m = some cst ∧ cst.1 = c
-      ∧ (∃ st', Src.getattribute S (fieldsOf S c) cst.2 i = .ok (if f.optional then Val.none else defaultOf S f, st'))
+      ∧ (∃ st', getAttr S (fieldsOf S c) cst.2 i = .ok (if f.optional then Val.none else defaultOf S f, st'))
       ∧ ∀ self, SrcMeta.get_field_default (fun c' => constructVal S c' []) (fieldsOf S c) self i = .ok (defaultOf S f) := by
-  refine ⟨fresh S c, (c, freshState { fields := fieldsOf S c, nGroups := groupsOf S c }), constructVal_nil S c, rfl, rfl, ?_, ?_⟩
-  · have hi : i < (fieldsOf S c).length := by
-      rcases Nat.lt_or_ge i (fieldsOf S c).length with h | h
-      · exact h
-      · rw [List.getElem?_eq_none h] at hf; cases hf
-    have hfi : (fieldsOf S c)[i] = f := by
-      rw [List.getElem?_eq_getElem hi] at hf; injection hf
-    obtain ⟨st', h⟩ := fresh_default S c i f hf hg
-    refine ⟨st', ?_⟩
-    rw [SrcTieObj.getattribute_eq S _ _ i hi (by intro g e; rw [hfi, hg] at e; cases e), h]
-    rfl
-  · intro self
-    rw [src_field_default S _ self i (fun f' h' => by rw [hf] at h'; injection h' with h'; subst h'; exact hmr)]
-    simp [Py.getFieldDefault, hf]
+  refine ⟨fresh S c, (c, freshState { fields := fieldsOf S c, nGroups := groupsOf S c }), constructVal_nil S c, rfl, rfl,
+    fresh_default S c i f hf hg, ?_⟩
+  intro self
+  rw [src_field_default S _ self i (fun f' h' => by rw [hf] at h'; injection h' with h'; subst h'; exact hmr)]
+  simp [Py.getFieldDefault, Py.metaByFieldName, hf]
+
+/-- **… and encodes to zero bytes**: `bytes(Cls())` with BOTH halves as written — construction through the
+    translated dataclass `__init__` / `__setattr__` / `__post_init__`, `bytes(…)` through the translated `__bytes__` /
+    `dump` (Gen/SrcMsg.lean) — for every schema whose optional fields are singular (`WfSchemaOpt`), every class, every
+    nesting budget ≥ 1 and every varint fuel -/
+theorem src_fresh_encodes_empty (S : Schema) (hS : WfSchemaOpt S) (fuel k c : Nat) :
+    (constructVal S c []).bind (Src.value_bytes fuel S (k + 1)) = .ok [] := by
+  rw [constructVal_nil]
+  exact SrcTieMsg.value_bytes_fresh S hS fuel k c
+
+/-! ### what PyPreludeLoad.lean assumes of `self._betterproto`, proved of the translated tables -/
+
+/-- `field_name_by_number.get(number)`, `meta_by_field_name[name]` and `default_gen[name] is list` of the tables
+    `ProtoClassMetadata(cls)` as written builds are `Py.fieldNameByNumber`, `Py.metaByFieldName` and
+    `Py.defaultGenIsList` (for a field that is not a map marked repeated) -/
+theorem src_tables_as_load_assumes (fs : List FieldD) :
+    ∃ M, SrcMeta.ProtoClassMetadata.init fs = .ok M
+      ∧ (∀ n : Nat, PyEnum.dictGet M.field_name_by_number n = Py.fieldNameByNumber { fields := fs } (n : Int))
+      ∧ (∀ k, PyEnum.dictItem M.meta_by_field_name k = Py.metaByFieldName { fields := fs } (some k))
+      ∧ (∀ k f, fs[k]? = some f → mapNotRepeated f = true →
+            ∃ g, PyEnum.dictItem M.default_gen k = .ok g ∧ (g = DefGen.callable (.obj .list) ↔ f.repeated = true)) := by
+  refine ⟨tables fs, init_eq fs, ?_, ?_, ?_⟩
+  · intro n
+    rw [show PyEnum.dictGet (tables fs).field_name_by_number n = findField fs n from tables_name_by_number fs n]
+    simp [Py.fieldNameByNumber]
+  · intro k
+    unfold Py.metaByFieldName
+    cases h : fs[k]? with
+    | none => simp [dictItem_none _ _ (by rw [tables_meta_by_field_name, h]), h]
+    | some f => simp [dictItem_some _ _ f (by rw [tables_meta_by_field_name, h]), h]
+  · intro k f hf hg
+    refine ⟨genOf f, dictItem_some _ _ _ (by rw [tables_default_gen, hf]; rfl), ?_⟩
+    unfold genOf
+    by_cases hm : (f.ty == .map) = true
+    · have hr : f.repeated = false := by simpa [mapNotRepeated, hm] using hg
+      simp [hm, hr]
+    · by_cases hr : f.repeated = true
+      · simp [hm, hr]
+      · simp only [hm, hr, Bool.false_eq_true, if_false, iff_false]
+        by_cases ho : (f.optional || f.wraps.isSome) = true
+        · simp [ho]
+        · simp only [ho, Bool.false_eq_true, if_false]
+          by_cases hmsg : (f.ty == .message) = true
+          · simp only [hmsg, if_true]; cases f.kind <;> simp
+          · by_cases he : (f.ty == .enum) = true
+            · simp [hmsg, he]
+            · simp only [hmsg, he, Bool.false_eq_true, if_false]
+              cases f.ty <;> simp [scalarObj]
 
 /-! ### non-vacuity -/
 
